@@ -96,26 +96,30 @@ Proof.
 Qed.
 
 (* ---------------------------------------------------------------- sums *)
+Lemma qsum_cons x l : qsum (x :: l) == x + qsum l.
+Proof. unfold qsum. cbn [fold_right]. apply Qred_correct. Qed.
+Lemma qsum_nil : qsum [] = 0.
+Proof. reflexivity. Qed.
 Lemma qsum_perm l l' : Permutation l l' -> qsum l == qsum l'.
 Proof.
-  induction 1; cbn.
+  induction 1.
   - reflexivity.
-  - rewrite IHPermutation. reflexivity.
-  - ring.
+  - rewrite !qsum_cons, IHPermutation. reflexivity.
+  - rewrite !qsum_cons. ring.
   - etransitivity; eassumption.
 Qed.
 Lemma qsum_map_ext (f f' : Q -> Q) l : (forall x, f x == f' x) -> qsum (map f l) == qsum (map f' l).
-Proof. intros E. induction l as [|z l IH]; cbn; [reflexivity|]. rewrite IH, (E z). reflexivity. Qed.
+Proof. intros E. induction l as [|z l IH]; cbn [map]; [reflexivity|]. rewrite !qsum_cons, IH, (E z). reflexivity. Qed.
 Lemma qsum_map_perm_ext (f f' : Q -> Q) l l' :
   Permutation l l' -> (forall x, f x == f' x) -> qsum (map f l) == qsum (map f' l').
 Proof.
   intros P E. rewrite (qsum_perm _ _ (Permutation_map f P)). apply qsum_map_ext. exact E.
 Qed.
 Lemma qsum_Forall2 l l' : Forall2 Qeq l l' -> qsum l == qsum l'.
-Proof. induction 1; cbn; [reflexivity|]. rewrite H, IHForall2. reflexivity. Qed.
+Proof. induction 1; [reflexivity|]. rewrite !qsum_cons, H, IHForall2. reflexivity. Qed.
 Lemma qsum_map_Forall2 (f f' : Q -> Q) l l' :
   Forall2 Qeq l l' -> (forall x y, x == y -> f x == f' y) -> qsum (map f l) == qsum (map f' l').
-Proof. intros F E. induction F; cbn; [reflexivity|]. rewrite (E x y H), IHF. reflexivity. Qed.
+Proof. intros F E. induction F; cbn [map]; [reflexivity|]. rewrite !qsum_cons, (E x y H), IHF. reflexivity. Qed.
 
 Lemma Forall2_len {A B} (R : A -> B -> Prop) l l' : Forall2 R l l' -> length l = length l'.
 Proof. induction 1; cbn; congruence. Qed.
@@ -124,25 +128,31 @@ Proof. unfold qlen. intros ->. reflexivity. Qed.
 
 Lemma sqdev_comp a a' x x' : a == a' -> x == x' -> sqdev a x == sqdev a' x'.
 Proof. unfold sqdev. intros -> ->. reflexivity. Qed.
+Lemma sqdev_eq a x : sqdev a x == (x - a) * (x - a).
+Proof. apply Qred_correct. Qed.
+Lemma mean_eq l : mean l == qsum l / qlen l.
+Proof. apply Qred_correct. Qed.
+Lemma var_ddof_eq d l : var_ddof d l == qsum (map (sqdev (mean l)) l) / inject_Z (Z.of_nat (length l) - d).
+Proof. apply Qred_correct. Qed.
 
 (* the relation under which the statistics are invariant: same multiset, or elementwise Qeq *)
 Lemma mean_perm l l' : Permutation l l' -> mean l == mean l'.
 Proof.
-  intros P. unfold mean. rewrite (qsum_perm _ _ P), (qlen_eq _ _ (Permutation_length P)). reflexivity.
+  intros P. rewrite !mean_eq, (qsum_perm _ _ P), (qlen_eq _ _ (Permutation_length P)). reflexivity.
 Qed.
 Lemma var_perm d l l' : Permutation l l' -> var_ddof d l == var_ddof d l'.
 Proof.
-  intros P. unfold var_ddof. rewrite (Permutation_length P).
+  intros P. rewrite !var_ddof_eq. rewrite (Permutation_length P).
   rewrite (qsum_map_perm_ext (sqdev (mean l)) (sqdev (mean l')) l l' P); [reflexivity|].
   intros x. apply sqdev_comp; [apply mean_perm; exact P|reflexivity].
 Qed.
 Lemma mean_Forall2 l l' : Forall2 Qeq l l' -> mean l == mean l'.
 Proof.
-  intros F. unfold mean. rewrite (qsum_Forall2 _ _ F), (qlen_eq _ _ (Forall2_len _ _ _ F)). reflexivity.
+  intros F. rewrite !mean_eq, (qsum_Forall2 _ _ F), (qlen_eq _ _ (Forall2_len _ _ _ F)). reflexivity.
 Qed.
 Lemma var_Forall2 d l l' : Forall2 Qeq l l' -> var_ddof d l == var_ddof d l'.
 Proof.
-  intros F. unfold var_ddof. rewrite (Forall2_len _ _ _ F).
+  intros F. rewrite !var_ddof_eq. rewrite (Forall2_len _ _ _ F).
   rewrite (qsum_map_Forall2 (sqdev (mean l)) (sqdev (mean l')) l l' F); [reflexivity|].
   intros x y E. apply sqdev_comp; [apply mean_Forall2; exact F|exact E].
 Qed.
@@ -280,7 +290,7 @@ Lemma qlen_pos x t : 0 < qlen (x :: t).
 Proof. unfold qlen. change 0 with (inject_Z 0). rewrite <- Zlt_Qlt. cbn [length]. lia. Qed.
 Lemma mean_times_len l : l <> [] -> mean l * qlen l == qsum l.
 Proof.
-  destruct l as [|x t]; [congruence|]. intros _. unfold mean. field.
+  destruct l as [|x t]; [congruence|]. intros _. rewrite mean_eq. field.
   intros H. pose proof (qlen_pos x t) as P. rewrite H in P. apply Qlt_irrefl in P. exact P.
 Qed.
 Lemma qlen_cons x t : qlen (x :: t) == qlen t + 1.
@@ -290,15 +300,15 @@ Lemma qsum_sqdev a l :
 Proof.
   induction l as [|x t IH].
   - cbn. unfold qlen. cbn. ring.
-  - cbn [map qsum fold_right]. fold (qsum (map (sqdev a) t)). fold (qsum (map (fun x => x * x) t)). fold (qsum t).
-    rewrite IH, qlen_cons. unfold sqdev. ring.
+  - cbn [map]. rewrite !qsum_cons, IH, qlen_cons, sqdev_eq. ring.
 Qed.
 Lemma variance_mean_of_squares l : l <> [] ->
   variance l == mean (map (fun x => x * x) l) - mean l * mean l.
 Proof.
   destruct l as [|x t]; [congruence|]. intros _.
-  unfold variance, var_ddof. rewrite qsum_sqdev. rewrite Z.sub_0_r. fold (qlen (x :: t)).
-  unfold mean. assert (L : qlen (map (fun x0 => x0 * x0) (x :: t)) = qlen (x :: t)) by (unfold qlen; rewrite map_length; reflexivity). rewrite L.
+  unfold variance. rewrite var_ddof_eq, qsum_sqdev. rewrite Z.sub_0_r. fold (qlen (x :: t)).
+  rewrite !mean_eq.
+  assert (L : qlen (map (fun x0 => x0 * x0) (x :: t)) = qlen (x :: t)) by (unfold qlen; rewrite map_length; reflexivity). rewrite L.
   pose proof (qlen_pos x t) as P.
   field. intros H. rewrite H in P. apply Qlt_irrefl in P. exact P.
 Qed.
